@@ -283,12 +283,14 @@ impl GarbleProgram {
         let Some(param) = self.main.params.get(arg_index) else {
             return Err(EvalError::InvalidArgIndex(arg_index));
         };
-        let literal = Literal::parse(&self.program, &param.ty, literal)
-            .map_err(EvalError::LiteralParseError)?;
+        // array sizes given as consts are resolved first (as in `literal_arg` and
+        // `Evaluator::parse_literal`): the literal is parsed against `[T; 3]`, not `[T; N]`
+        let ty = resolve_const_type(&param.ty, &self.const_sizes);
+        let literal =
+            Literal::parse(&self.program, &ty, literal).map_err(EvalError::LiteralParseError)?;
         // The checker accepts more than can be encoded for this parameter (a range without a
         // type suffix keeps 32-bit elements, a struct literal may name a field twice): apply
         // the same type test as `literal_arg` and `Evaluator::parse_literal` do.
-        let ty = resolve_const_type(&param.ty, &self.const_sizes);
         if !literal.is_of_type(&self.program, &ty) {
             return Err(EvalError::InvalidLiteralType(
                 Box::new(literal),
